@@ -69,6 +69,9 @@ func runC05(r *core.Run) {
 		}
 	}
 	nbhdSub(r, "nbhd-spec/all+attr+autoid", core.MustCfg("all+attr+autoid"), func(s *core.Sub, cv *core.Conv, w []byte) { c05Case(s, cv, w) })
+	for _, cn := range []string{"core", "all+attr+autoid"} {
+		nestSub(r, "nesting/"+cn, core.MustCfg(cn), core.Pick(r, 3, 4), func(s *core.Sub, cv *core.Conv, w []byte) { c05Case(s, cv, w) })
+	}
 }
 
 // noteTree records the digest of the parsed tree shape when it is non-trivial (≥3 node kinds).
